@@ -266,6 +266,24 @@ def check_assumptions(prop_id):
     return len(thms), discharged, sorted(axioms), problems
 
 
+def coqchk_props(prop_id, timeout=2400):
+    """Independent re-check (coqchk) of Props/<id>.vo and everything it depends on; returns (ok, axioms, message)."""
+    rc, out = sh(f"timeout {timeout} coqchk -o -silent -Q . SPP SPP.Props.{prop_id}", cwd=COQ, timeout=timeout + 60)
+    if rc != 0:
+        return False, [], "coqchk failed: " + out[-600:]
+    m = re.search(r"\* Axioms:(.*?)\n\s*\n\* Constants/Inductives relying on type-in-type:(.*?)\n\s*\n\* Constants/Inductives relying on unsafe \(co\)fixpoints:(.*?)\n\s*\n\* Inductives whose positivity is assumed:(.*?)(?:\n\s*\n|$)", out, flags=re.S)
+    if not m:
+        return False, [], "coqchk output not understood: " + out[-600:]
+    axioms = [a.strip() for a in m.group(1).split("\n") if a.strip() and a.strip() != "<none>"]
+    axioms = [a[4:] if a.startswith("Coq.") else a for a in axioms]
+    relaxed = [x.strip() for g in (2, 3, 4) for x in m.group(g).split("\n") if x.strip() and x.strip() != "<none>"]
+    short = {a.split(".", 1)[1] if a.split(".")[0] in ("Logic", "Reals") else a for a in axioms}
+    bad = {a for a in short if a not in ALLOWED_AXIOMS}
+    if bad or relaxed:
+        return False, sorted(short), f"coqchk: axioms outside the allow-list {sorted(bad)}; relaxed checks {relaxed}"
+    return True, sorted(short), "coqchk: context re-checked; axioms " + (", ".join(sorted(short)) or "none")
+
+
 SHARD_BYTES = int(os.environ.get("VERIF_SHARD_BYTES", str(3 * 1024 * 1024)))
 
 
